@@ -175,7 +175,8 @@ for _k, _fs in SHAPES.items():
 # functions translated from the Go source by tools/go2lean on every run (lean/Oidc/Generated/Code.lean) and proved equal to the
 # model in lean/Oidc/Proofs/Code*.lean; the property files state their theorems about the translated code as code_*
 TRANSLATED = {
-    'C01': ['determineExcludedURL', 'isUserAuthenticated', 'VerifyJWTSignatureAndClaims'],
+    'C01': ['determineExcludedURL', 'isUserAuthenticated', 'VerifyJWTSignatureAndClaims', 'Config.Validate'],
+    'C09': ['Config.Validate'],
     'C02': ['JWT.Verify', 'verifyIssuer', 'verifyAudience', 'verifyExpiration', 'verifyIssuedAt', 'verifyNotBefore', 'verifyTimeConstraint', 'VerifyJWTSignatureAndClaims'],
     'C05': ['JWKCache.GetJWKS', 'JWKCache.Cleanup'],
     'C04': ['isUserAuthenticated', 'SessionData.SetAuthenticated', 'SessionData.GetAuthenticated'],
@@ -187,9 +188,9 @@ TRANSLATED = {
     'C12': ['Cache.Set', 'Cache.Get', 'Cache.Delete', 'Cache.Cleanup', 'Cache.evictOldest', 'Cache.removeItem', 'TokenCache.Set', 'TokenCache.Get', 'TokenCache.Delete'],
     'C13': ['Cache.Set', 'Cache.Get', 'Cache.Delete', 'Cache.Cleanup', 'Cache.evictOldest', 'Cache.removeItem'],
     'C14': ['VerifyToken', 'performPreVerificationChecks', 'cacheVerifiedToken', 'RevokeToken', 'TokenCache.Set', 'TokenCache.Get', 'TokenCache.Delete', 'the six methods of cache.go', 'VerifyJWTSignatureAndClaims'],
-    'C15': ['isLocalRedirectTarget', 'buildFullURL', 'determineScheme', 'determineHost'],
+    'C15': ['isLocalRedirectTarget', 'buildFullURL', 'determineScheme', 'determineHost', 'Config.Validate'],
     'C18': ['splitIntoChunks'],
-    'C19': ['VerifyToken', 'performPreVerificationChecks'],
+    'C19': ['VerifyToken', 'performPreVerificationChecks', 'Config.Validate'],
     'C20': ['discoverProviderMetadata', 'MetadataCache.GetMetadata', 'MetadataCache.isCacheValid', 'MetadataCache.Cleanup'],
 }
 for _k, _fs in TRANSLATED.items():
